@@ -103,7 +103,7 @@ func (e *Engine) pointeeKeys(pt types.Type) []string {
 			return e.structKeys(n)
 		}
 	}
-	return []string{e.boxKey(e.sortOf(p.Elem()))}
+	return []string{e.boxKey(p.Elem())}
 }
 
 var libMods = map[string][]string{
